@@ -1243,8 +1243,20 @@ static void gen_expr(Node *node) {
     error_tok(node->tok, "invalid expression");
   }
   case TY_LDOUBLE: {
+    // The left operand must not stay on the x87 register stack while
+    // the right one is evaluated: the right operand may contain a call,
+    // a callee expects an empty register stack, and a recursive
+    // function would lose one of the eight registers per activation.
+    // So keep it in memory meanwhile.
     gen_expr(node->lhs);
+    println("  sub $16, %%rsp");
+    println("  fstpt (%%rsp)");
+    depth += 2;
     gen_expr(node->rhs);
+    println("  fldt (%%rsp)");
+    println("  add $16, %%rsp");
+    depth -= 2;
+    println("  fxch %%st(1)");
 
     switch (node->kind) {
     case ND_ADD:
